@@ -42,7 +42,10 @@ CLAIMED = {
              "committed after the end time), also on dump/resume histories: runs with a dumping tagger (the shipped [Dumping] wiring and "
              "harness-built ones) are dumped, every dump is resumed through resume.main(), and 'run up to the dump + resumed run' is "
              "judged as one history (sample k at k*interval across dumps, sample count, end at the end time).",
-        note="The float clause (one rounding per step, not growing with k beyond that) is measured by a Fraction oracle on the "
+        note="System level (JF/Props/SystemInv.lean, concrete coulomb_atoms world): no_sample_skipped - while a sampling candidate is pending no "
+             "event with a later time is committed and the sampling event is committed at exactly its candidate time, for every run (from the "
+             "scheduler's minimality and sorted commit times in the composed loop). "
+             "The float clause (one rounding per step, not growing with k beyond that) is measured by a Fraction oracle on the "
              "implementation and proved in the rounding-abstract reading of C14 where available. Ties between a sample time and the "
              "end time are not judged.",
         technique="Lean 4 proof over a hand-written model + bit-exact differential correspondence + run-level oracle",
@@ -149,7 +152,12 @@ CLAIMED = {
              "counterexample theorems for the six boundary findings. Correspondence: bit-exact against the three real classes under "
              "controlled draws (incl. CPython's compensated sum), sessions with invalid histories, glue (_fill_lifting, fixed-separations "
              "handler); oracle: exact selection intervals of the implementation by bisection, summed with Fractions, vs |q_k|.",
-        note="Rounding is not covered by the theorems (exact arithmetic); float behaviour tied by bit-exact correspondence and the flow "
+        note="Rounding-abstract reading (JF/Props/C05Float.lean, every FloatModel + the proved binary64 instance): the walk always returns an "
+             "entry with non-positive derivative (choose_safe); a zero-derivative unit is selected IFF one of two explicit conditions holds "
+             "(zero_rate_selected_iff: rounded position <= 0 with a leading zero-rate entry, or fall-through with a trailing zero-rate entry) "
+             "- the six known findings are exactly these; selection stays monotone in the draw (intervals); flow error bounds "
+             "(flow_error_draw; the error of CPython's compensated sum() is an explicit parameter delta for the outside/ratio schemes). "
+             "Float behaviour is also tied by bit-exact correspondence and the flow "
              "oracle's derived tolerance. Six known findings (a zero-derivative unit can be selected at a measure-zero/ulp-level end point).",
         technique="Lean 4 proof over a hand-written model + bit-exact differential correspondence + exact flow-integral oracle",
         ref="§5 C05"),
@@ -197,9 +205,11 @@ CLAIMED = {
              "concrete world of point masses with one cell-occupancy system (kinematic chain machine + occupancy update + cell taggers; "
              "the four shipped coulomb_atoms wirings by decide), every recorded commit of such runs is checked to be an instance of that "
              "world's transition relation (harness/fpcorr.py).",
-        note="FootprintsSound is proved for the coulomb_atoms family under the premise that a sampling/dumping/end-of-run commit finds the "
-             "active unit in its recorded cell (C11's history premise; measured on every observed commit) and stays a hypothesis (tables "
-             "written by hand, validated on runs) for composite-object configurations. Pool sizes (clause i) are not derived: "
+        note="FootprintsSound is proved for the coulomb_atoms family; its premise (a sampling/dumping/end-of-run commit finds the active unit in "
+             "its recorded cell) is itself derived by the joint induction of JF/Props/SystemInv.lean (c09_fresh_closed: pending = fresh yield "
+             "at every leg of every run of the four shipped coulomb_atoms wirings, positive direction, explicit no-tie hypothesis for the two "
+             "cell wirings, none for the two without cells). It stays a hypothesis (tables written by hand, validated on runs) for "
+             "composite-object configurations. Pool sizes (clause i) are not derived: "
              "exhaustion is an explicit error outcome in model and code and is reported by the oracle.",
         technique="Lean 4 proof over a hand-written activator model + generated decidable obligations per .ini + trace replay + run-level oracle",
         ref="§5 C09/C08, §4"),
@@ -218,7 +228,12 @@ CLAIMED = {
              "the scheduler/system model) and is measured by the run-level oracle; it is derived from the leg loop + a pending cell-boundary "
              "candidate for both directions of motion (SystemLinks), in the negative direction for representable coordinates under the "
              "adjacency of the recorded extents (no scalar between the neighbour's cell_max and the cell's lower edge: C16 part D, checked "
-             "on the real cell systems).",
+             "on the real cell systems). For the concrete coulomb_atoms world (point masses, one cell system, motion in the positive "
+             "direction, exact reading) the premise is no longer a premise: JF/Props/SystemInv.lean proves by ONE joint induction over the legs "
+             "of the composed mediator loop (E1 scheduler mirror + C09 freshness + C11 mirror + C07 kinematics + C08 currency) that the active "
+             "unit is in its recorded cell at every commit (c11_active_in_recorded_cell_closed, c11_occinv_closed), under an explicit no-tie "
+             "hypothesis (no sampling/dumping event committed exactly at a pending cell-boundary time: at such a tie C09's freshness really "
+             "fails in the exact reading).",
         technique="Lean 4 proof (invariant by induction) over a hand-written model + differential correspondence + run-level oracle",
         ref="§5 C11"),
     "C16": dict(
